@@ -66,7 +66,9 @@ def make_entries(fmt, n, lens, rng):
         elif fmt == "bed6":
             out.append(f"c{num}\t{num}\t{int(num) + 5}\tn{'x' * l}\t{'.' if i % 3 == 0 else i}\t{'+-'[i % 2]}\n")
         elif fmt == "bdg":
-            out.append(f"c{num}\t{num}\t{int(num) + 5}\t{i}.5\n")
+            # some values with 16-17 significant digits: parsing a row must not depend on the rows that share its buffer
+            val = [f"{i}.5", f"{i}.5", "0.30000000000000004", f"{i + 1}23456.78901234567", "99999999.99999999"][(i + len(lens) + l) % 5]
+            out.append(f"c{num}\t{num}\t{int(num) + 5}\t{val}\n")
         elif fmt == "bed12":
             blocks = ",".join(str(10 ** (l - 1) + j) for j in range(i % 3 + 1)) + ("," if i % 2 else "")
             out.append(f"c{num}\t{num}\t{int(num) + 5}\tn{i}\t{i}\t{'+-'[i % 2]}\t{num}\t{int(num) + 5}\t0,0,0\t{i % 3 + 1}\t{blocks}\t{blocks}\n")
@@ -231,6 +233,21 @@ def cases(tier, rng):
                         yield {"op": "entries", "fmt": fmt, "header": header, "ents": ents, "gz": gz, "nl": nl, "crlf": crlf,
                                "lazy": lazy, "k": k, "longest": longest, "keep": (k + len(ents)) % 2 == 0}
 
+    # --- the documented max_chunk_size keyword: the read may refuse (no complete entry within the cap) but a read that
+    #     completes must still deliver every entry
+    for fmt in fmts:
+        for n in ((2, 3, 5) if big else (3,)):
+            ents, header = make_entries(fmt, n, [2, 5], rng)
+            L = len(header) + len("".join(ents))
+            longest = max(len(e) for e in ents) + 2
+            ks = sorted({1, 7, longest // 2 + 1, longest, longest + 3, L // 2 + 1})
+            for k in (ks if big else rng.sample(ks, 3)):
+                caps = sorted({k, k + 1, 2 * k, longest, longest + 1, 2 * longest, len(header) + longest + 2, L, L + 5, 100})
+                for cap in (caps if big else rng.sample(caps, 4)):
+                    if cap < k:
+                        continue
+                    yield {"op": "entries", "fmt": fmt, "header": header, "ents": ents, "gz": rng.random() < 0.4, "nl": rng.random() < 0.7, "crlf": False,
+                           "lazy": rng.random() < 0.5, "k": k, "maxk": cap, "longest": longest}
     # --- two readers alive in one process: a second file is read in lockstep with, or previewed and abandoned before, the file under
     #     test (reader state must be per reader; a gzip reader keeps a left-over tail between reads)
     for fmt in fmts:
@@ -386,6 +403,9 @@ def impl(c):
                     chunks = list(f.read_chunks(min_chunk_size=c["k"]))
                     for chunk in chunks:
                         rows += table_rows(chunk)
+                elif c.get("maxk"):
+                    for chunk in f.read_chunks(min_chunk_size=c["k"], max_chunk_size=c["maxk"]):
+                        rows += table_rows(chunk)
                 else:
                     for chunk in f.read_chunks(min_chunk_size=c["k"]):
                         rows += table_rows(chunk)
@@ -421,7 +441,7 @@ def agree(c, got, exp):
     if "whole_err" in got:
         return True   # whole read fails: not a file this library reads (C02's business)
     if "err" in got:
-        return _too_small(c)
+        return _too_small(c) or bool(c.get("maxk"))      # with a cap the read may refuse; it must not complete with other entries
     return got["chunked"] == got["whole"]
 
 
